@@ -153,10 +153,11 @@ def r2(ctx):
 def r3(ctx):
     crate = ctx.lib()
     leaders = C.need("leader-union", C.leader_union_functions(crate))
-    merges = set(C.need("merge", C.merge_functions(crate)))
+    C.need("merge", C.merge_functions(crate))
+    merges = set(C.need("merge entry (called from the leader union)", C.merge_region(crate)["entries"]))
     sw = set(C.slot_writers(crate))
     ctx.roleset("leader-union", leaders)
-    ctx.roleset("merge", sorted(merges))
+    ctx.roleset("merge-entries", sorted(merges))
     n_add = n_merge = 0
     for lid in leaders:
         lb = crate.bodies[lid]
